@@ -87,7 +87,7 @@ MatchDeliveries(r, idx, ds) ==
          \/ ds /= <<>> /\ Head(ds).sb = m.sb /\ Head(ds).s = m.s /\ Head(ds).f = m.f /\ MatchDeliveries(r, Tail(idx), Tail(ds))
          \/ Duplicate(r, Head(idx)) /\ MatchDeliveries(r, Tail(idx), ds)
 TxnOneRecipient(r) ==
-    r.kind \in {"plain", "cancel", "stall"} => MatchDeliveries(r, DataIdx(r), r.delivered)
+    r.kind \in {"plain", "cancel", "stall", "edge"} => MatchDeliveries(r, DataIdx(r), r.delivered)
 SameMsg(d, m) == m.st = 0 /\ m.sb = d.sb /\ m.s = d.s /\ m.f = d.f
 TxnNoDoubleDelivery(r) ==          \* in every kind: nothing reaches the handlers twice, nothing a sender consumed is also delivered
     \A i \in 1..Len(r.delivered) : LET d == r.delivered[i] IN
